@@ -72,6 +72,10 @@ def gen_case(run_seed: int, tier: str) -> dict[str, Any]:
     ndocs = w.choice([1, 1, 1, 2, 2, 3, 4])
     names = ["a.md", "b.md", "notes.md", "docs/c.md", "docs/sub/d.md", "README.md"]
     w.shuffle(names)
+    if w.random() < 0.03:
+        names[0] = "L" * 236 + ".md"  # name + temp suffix exceeds NAME_MAX
+    elif w.random() < 0.05:
+        names[0] = "sp ace \u00fc.md"
     for name in names[:ndocs]:
         r = w.random()
         if r < 0.08:
@@ -82,6 +86,8 @@ def gen_case(run_seed: int, tier: str) -> dict[str, Any]:
             data = corpus.gen_doc(w, w.randint(1, 4)).replace("\n", "\r\n").encode()
         elif r < 0.32:
             data = ("# Tiny\n").encode()
+        elif r < 0.36:
+            data = corpus.gen_big_doc(w, w.choice([70, 140])).encode()  # several buffer-sized raw writes
         else:
             data = corpus.gen_doc(w, w.randint(1, 6)).encode()
         tree[name] = {"f": b2j(data)}
@@ -99,6 +105,11 @@ def gen_case(run_seed: int, tier: str) -> dict[str, Any]:
         tree["link.md"] = {"l": docs[0]}
     if w.random() < 0.12:
         tree["hard.md"] = {"hl": docs[0]}  # second name of the same inode
+    ident = sub_rng(run_seed, "identity")
+    euid = ident.choice([None] * 5 + [0, 1000, 65534])
+    if euid is not None and ident.random() < 0.6:
+        # the process is (as far as it can tell) neither root nor the owner of this file
+        tree[docs[0]] = dict(tree[docs[0]], own=ident.choice([1234, 1000, 65534]))
 
     opts = corpus.gen_options(w)
     if w.random() < 0.85:
@@ -159,6 +170,7 @@ def gen_case(run_seed: int, tier: str) -> dict[str, Any]:
         "inplace": inplace,
         "backup": backup,
         "uid_seed": k.getrandbits(32),
+        "euid": euid,
         "sweep_seed": k.getrandbits(32),
         # some workloads start from files that are already formatted for this very invocation
         # (the "nothing to change" path of an implementation is a path too)
@@ -206,7 +218,7 @@ def _tree_bytes(tree: dict[str, Any]) -> dict[str, Any]:
     out: dict[str, Any] = {}
     for rel, ent in tree.items():
         if "f" in ent:
-            out[rel] = {"f": j2b(ent["f"])}
+            out[rel] = dict(ent, f=j2b(ent["f"]))
         else:
             out[rel] = ent
     return out
@@ -460,6 +472,8 @@ def run_case(env: Env, case: dict[str, Any], want_trace: bool = False) -> dict[s
 
 
 def _exec_once(case: dict[str, Any], scratch: str, faults: list[dict[str, Any]], knobs: dict[str, Any], new: dict[str, bytes | None] | None) -> tuple[Exec, simproc.ProcResult]:
+    if case.get("euid") is not None:
+        knobs = dict(knobs, euid=case["euid"])
     ex = Exec(case, os.path.join(scratch, "t"), faults, knobs, new)
     res = ex.run()
     return ex, res
@@ -473,7 +487,7 @@ def _run_case(env: Env, case: dict[str, Any], scratch: str, want_trace: bool) ->
             if "f" in ent and not is_aux(rel):
                 got = simproc.read_bytes(os.path.join(ex_p.root, rel))
                 if got is not None:
-                    tree2[rel] = {"f": b2j(got)}
+                    tree2[rel] = dict(ent, f=b2j(got))
         case = dict(case, tree=tree2, prefmt=False)
     out_rel = case["inv"].get("output")
     extra = [out_rel] if out_rel else []
@@ -518,7 +532,7 @@ def _run_case(env: Env, case: dict[str, Any], scratch: str, want_trace: bool) ->
                     diffp = sorted(r for r in set(after_t) | set(before_t) if after_t.get(r) != before_t.get(r))
                     early_violations.append((f"C14/failed-format-modified-tree/{'inplace+backup' if case['backup'] else 'inplace'}", solo, {"why": "the invocation failed (exit != 0) on this file alone, yet the tree changed", "exit": res_s.exit, "changed_paths": diffp[:5], "stderr": res_s.stderr[-200:].decode("utf-8", "replace")}))
             # and what a re-run on that result must produce
-            solo2 = dict(solo, tree={**solo["tree"], rel: {"f": b2j(got)}}) if got is not None and "f" in case["tree"][rel] else solo
+            solo2 = dict(solo, tree={**solo["tree"], rel: dict(case["tree"][rel], f=b2j(got))}) if got is not None and "f" in case["tree"][rel] else solo
             exs2, _ = _exec_once(solo2, scratch, [], {"listing": "native"}, None)
             new2[rel] = simproc.read_bytes(os.path.join(exs2.root, rel))
         counters["solo_baselines"] = 2 * len(ex0.docs)
